@@ -33,6 +33,8 @@ impl TimerWheel {
     pub closed spec fn next_counter(&self) -> int { self.counter as int }
     /// the entry at the root of the heap (meaningful when the heap is not empty)
     pub closed spec fn top(&self) -> TimeoutData { heap_top(&self.heap) }
+    /// no arming yet: nothing in the heap, the first counter still to be handed out
+    pub open spec fn is_fresh(&self) -> bool { self@ == Multiset::<TimeoutData>::empty() && self.next_counter() == 0 }
     /// at most one entry per counter
     pub open spec fn uniq(&self) -> bool {
         forall|x: TimeoutData, y: TimeoutData| #![trigger self@.count(x), self@.count(y)] self@.count(x) > 0 && self@.count(y) > 0 && x.ctr() == y.ctr() ==> x == y && self@.count(x) == 1
